@@ -5,8 +5,9 @@
 //!                                         one poll of accept(), drop the resolver of request id, peer GOAWAY
 //! cgoaway g<id>,D,R,z,h<n>,...            client: GOAWAY(id) arrives, one poll of the driver, one poll of send_request (a new
 //!                                         call or the one parked for stream credit), stream credit := 0, grant n streams
-//! (experiment only, not generated, no model: `b` closes flow control on our control stream, `W` reopens it; a
-//!  shutdown()/accept() polled Pending on its GOAWAY write is then DROPPED by this harness)
+//!   b / W<k>: the control stream's write budget := 0 / += k bytes.  A shutdown()/accept() whose GOAWAY write is
+//!   pending (`wpend`) keeps its future; the next S or P polls that same future again.  After accept() has returned
+//!   an error only S ops are still executed (`serr:<code>` = shutdown refused with the connection error).
 //!
 //! Output: `ok <group> <group> ...`, one group per op (outputs joined by ',', `.` = none):
 //!   w<g> GOAWAY(g) written on our control stream; +<id> accept() returned request id;
@@ -191,8 +192,19 @@ fn server_case(fam: &str, ops: &str) -> String {
     let mut held: HashMap<u64, h3::server::RequestResolver<SimConn, Bytes>> = HashMap::new();
     let mut groups: Vec<String> = Vec::new();
     let mut dead = false;
+    // A call whose GOAWAY write is pending keeps its future (and with it the exclusive borrow of the connection)
+    // until it completes; every other pending call is dropped after its single poll.
+    enum Out {
+        Shut(Result<(), h3::error::ConnectionError>),
+        Acc(Result<Option<h3::server::RequestResolver<SimConn, Bytes>>, h3::error::ConnectionError>),
+    }
+    let mut conn = Box::new(conn);
+    let conn_ptr: *mut h3::server::Connection<SimConn, Bytes> = &mut *conn;
+    let mut parked: Option<Pin<Box<dyn Future<Output = Out>>>> = None;
+    let waker = Waker::from(Arc::new(Noop));
     for op in ops.split(',') {
-        if dead {
+        let kind = op.as_bytes()[0];
+        if dead && kind != b'S' {
             groups.push(".".into());
             continue;
         }
@@ -204,34 +216,58 @@ fn server_case(fam: &str, ops: &str) -> String {
         let mut answer: Option<String> = None;
         let mut shown: Option<u64> = None;
         let arg = &op[1..];
-        match op.as_bytes()[0] {
+        match kind {
             b'A' => {
                 let id: u64 = arg.parse().unwrap();
                 assert!(apply_event(&w, &format!("B{}", id)));
                 assert!(apply_event(&w, &format!("{}:c:{}", id, HEADERS_GET)));
                 assert!(apply_event(&w, &format!("{}:F", id)));
             }
-            b'S' => {
-                let n: usize = arg.parse().unwrap();
-                match poll_once(conn.shutdown(n)) {
-                    Poll::Ready(Ok(())) => {}
-                    Poll::Ready(Err(e)) => answer = Some(format!("shutdown-err:{}", code_of(&conn_err(&e)))),
-                    Poll::Pending => answer = Some("spend".into()),
+            b'S' | b'P' => {
+                let mut fut: Pin<Box<dyn Future<Output = Out>>> = match parked.take() {
+                    Some(f) => f,
+                    None => {
+                        // SAFETY: `conn` is boxed and outlives every future; it is touched only through the one
+                        // future that exists at a time (a kept future is polled or dropped before anything else uses it)
+                        let c: &'static mut h3::server::Connection<SimConn, Bytes> = unsafe { &mut *conn_ptr };
+                        if kind == b'S' {
+                            let n: usize = arg.parse().unwrap();
+                            Box::pin(async move { Out::Shut(c.shutdown(n).await) })
+                        } else {
+                            Box::pin(async move { Out::Acc(c.accept().await) })
+                        }
+                    }
+                };
+                let mut cx = Context::from_waker(&waker);
+                match fut.as_mut().poll(&mut cx) {
+                    Poll::Ready(Out::Shut(Ok(()))) => {}
+                    Poll::Ready(Out::Shut(Err(e))) => {
+                        answer = Some(format!("serr:{}", code_of(&conn_err(&e))));
+                        dead = true;
+                    }
+                    Poll::Ready(Out::Acc(Ok(Some(r)))) => {
+                        let id = h3::quic::SendStream::<Bytes>::send_id(&r.frame_stream).into_inner();
+                        shown = Some(id);
+                        held.insert(id, r);
+                    }
+                    Poll::Ready(Out::Acc(Ok(None))) => answer = Some("none".into()),
+                    Poll::Ready(Out::Acc(Err(e))) => {
+                        answer = Some(err_text(&conn_err(&e), &w, log0));
+                        dead = true;
+                    }
+                    Poll::Pending => {
+                        let write_pending =
+                            w.lock().unwrap().streams.get(&ctl).map(|s| s.tx_waker.is_some()).unwrap_or(false);
+                        if write_pending {
+                            parked = Some(fut);
+                            answer = Some("wpend".into());
+                        } else {
+                            drop(fut);
+                            answer = Some(if kind == b'S' { "spend" } else { "pend" }.into());
+                        }
+                    }
                 }
             }
-            b'P' => match poll_once(conn.accept()) {
-                Poll::Ready(Ok(Some(r))) => {
-                    let id = h3::quic::SendStream::<Bytes>::send_id(&r.frame_stream).into_inner();
-                    shown = Some(id);
-                    held.insert(id, r);
-                }
-                Poll::Ready(Ok(None)) => answer = Some("none".into()),
-                Poll::Ready(Err(e)) => {
-                    answer = Some(err_text(&conn_err(&e), &w, log0));
-                    dead = true;
-                }
-                Poll::Pending => answer = Some("pend".into()),
-            },
             b'C' => {
                 let id: u64 = arg.parse().unwrap();
                 held.remove(&id);
@@ -241,7 +277,11 @@ fn server_case(fam: &str, ops: &str) -> String {
                 w.lock().unwrap().streams.get_mut(&ctl).unwrap().tx_budget = Some(0);
             }
             b'W' => {
-                w.lock().unwrap().grant_write(ctl, 1 << 40);
+                let k: u64 = arg.parse().unwrap();
+                let limited = w.lock().unwrap().streams.get(&ctl).unwrap().tx_budget.is_some();
+                if limited {
+                    w.lock().unwrap().grant_write(ctl, k);
+                }
             }
             b'G' => {
                 let id: u64 = arg.parse().unwrap();
@@ -286,7 +326,9 @@ fn server_case(fam: &str, ops: &str) -> String {
         }
         groups.push(if outs.is_empty() { ".".into() } else { outs.join(",") });
     }
+    drop(parked);
     drop(held);
+    drop(conn);
     format!("ok {}", groups.join(" "))
 }
 
